@@ -83,6 +83,10 @@ func (w *worker) run(ctx context.Context, events chan<- *model.Event) error {
 
 		recs := make([]*model.Record, 0, w.recsPerEvent)
 		for ctx.Err() == nil && err == nil {
+			// the stop-at-EOF request counts only if it was made before the read that finds the EOF:
+			// what is appended while the batch is sent (or slept on) must still be read
+			untilEof := atomic.LoadInt32(&w.state) == wsRunUntilEof
+
 			var rec *model.Record
 			rec, err = w.parser.NextRecord(ctx)
 			if rec != nil {
@@ -95,7 +99,7 @@ func (w *worker) run(ctx context.Context, events chan<- *model.Event) error {
 				recs = w.recycle(recs)
 			}
 
-			if eof && atomic.LoadInt32(&w.state) == wsRunUntilEof && err == nil {
+			if eof && untilEof && err == nil {
 				w.logger.Info("EOF reached!")
 				err = io.EOF
 			}
